@@ -47,6 +47,8 @@ type c07Note struct {
 	shift time.Duration
 }
 
+var c07Start = time.Now()
+
 func c07Run(sc *C07Scenario) (v *nodeViolation, flags map[string]bool) {
 	flags = map[string]bool{}
 	fetch := newStubFetcher()
@@ -117,6 +119,9 @@ func c07Run(sc *C07Scenario) (v *nodeViolation, flags map[string]bool) {
 				sn.txThreadDead = err.Error()
 			}
 			sn.drain()
+			if traceOn {
+				fmt.Printf("[c07 process] tx%d known=%v wasIn=%v trusted=%v safe=%v took %v (since start %v)\n", i, known, wasIn, td.Trusted, td.Safe, time.Since(stamp), time.Since(c07Start))
+			}
 			if known && td.Trusted {
 				vouched[i] = true // a trusted body vouches even when it is a duplicate
 			}
@@ -423,6 +428,17 @@ func c07Run(sc *C07Scenario) (v *nodeViolation, flags map[string]bool) {
 			shift += delay + time.Second
 			time.Sleep(700 * time.Millisecond)
 			flags["watched-for-wrong-safe"] = true
+		}
+	}
+	if traceOn {
+		t0 := time.Now()
+		for i := range txs {
+			for _, n := range notesOf(i) {
+				fmt.Printf("[c07 note] tx%d %s safe=%v unsafe=%v cancelled=%v proof=%v at %v (since start %v)\n", i, n.kind, n.safe, n.unsf, n.canc, n.proof, n.at.Sub(t0), n.at.Sub(c07Start))
+			}
+			if conflicted[i] {
+				fmt.Printf("[c07 model] tx%d conflicted at %v confirmed=%v vouched=%v local=%v delivered=%v\n", i, conflictAt[i].Sub(t0), confirmed[i], vouched[i], local[i], delivered[i])
+			}
 		}
 	}
 	// judge trajectories. Time of each notification: use the handler's order only; for the age rule
